@@ -257,6 +257,59 @@ Definition complete_gen (native : bool) (actual : Z) : outcome Z :=
   if actual <? 0 then (if native then Panic else Err) else Ok actual.
 
 (* ------------------------------------------------------------------------------------------ *)
+(* 5d. stored price strings read by the voting-power update (x/oracle/keeper/prices.go GetMultipleAssetsPrices):    *)
+(*     NewIntFromString gives a nil Int for "" (a round closed without submissions: GrowRoundID records an empty    *)
+(*     price) and for non-numeric strings; the guard `v.IsNil() || v.LTE(0)` falls back to the default price 1      *)
+(* ------------------------------------------------------------------------------------------ *)
+Definition price_value (parsed : option Z) : outcome Z :=
+  match parsed with
+  | None => Ok 1                       (* IsNil checked BEFORE any method is called on the value *)
+  | Some v => if v <=? 0 then Ok 1 else Ok v
+  end.
+
+(* ------------------------------------------------------------------------------------------ *)
+(* 5e. the validator set handed to the consensus engine at a dogfood epoch end                                      *)
+(*     x/dogfood/keeper/abci.go EndBlock: new set = active, unjailed operators with vote power >= 1 (top MaxValidators);*)
+(*     every previous validator outside it gets a power-0 update. CometBFT ValidatorSet.UpdateWithChangeSet refuses a   *)
+(*     change list that leaves NO validator ("would result in empty set"), state.updateState fails before Commit on      *)
+(*     every node: the chain halts. NOT repaired (known finding C11-empty-validator-set).                               *)
+(* ------------------------------------------------------------------------------------------ *)
+Record voper := mkVOp { vo_opted : bool; vo_jailed : bool; vo_self : Z; vo_total : Z }.
+(* vote power: 0 unless opted in, not jailed and the self delegation reaches the minimum *)
+Definition vpower (minself : Z) (o : voper) : Z :=
+  if vo_opted o && negb (vo_jailed o) && (minself <=? vo_self o) then vo_total o else 0.
+Definition eligible (minself : Z) (o : voper) : bool := 1 <=? vpower minself o.
+Inductive vtx :=
+| VOptOut (i : nat)                 (* MsgOptOutOfAVS: accepted whenever the operator is active *)
+| VUndelegateSelf (i : nat) (amt : Z)
+| VJail (i : nat)                   (* slashing / evidence module *)
+| VOptIn (i : nat)
+| VDelegateSelf (i : nat) (amt : Z).
+Fixpoint vupd (i : nat) (f : voper -> voper) (ops : list voper) : list voper :=
+  match ops, i with
+  | [], _ => []
+  | o :: r, O => f o :: r
+  | o :: r, S j => o :: vupd j f r
+  end.
+Definition vstep (ops : list voper) (t : vtx) : list voper :=
+  match t with
+  | VOptOut i => vupd i (fun o => mkVOp false (vo_jailed o) (vo_self o) (vo_total o)) ops
+  | VOptIn i => vupd i (fun o => mkVOp true (vo_jailed o) (vo_self o) (vo_total o)) ops
+  | VJail i => vupd i (fun o => mkVOp (vo_opted o) true (vo_self o) (vo_total o)) ops
+  | VUndelegateSelf i a =>
+      vupd i (fun o => let a' := Z.max 0 (Z.min a (vo_self o)) in mkVOp (vo_opted o) (vo_jailed o) (vo_self o - a') (vo_total o - a')) ops
+  | VDelegateSelf i a =>
+      vupd i (fun o => let a' := Z.max 0 a in mkVOp (vo_opted o) (vo_jailed o) (vo_self o + a') (vo_total o + a')) ops
+  end.
+(* epoch end: None = the consensus engine refuses the update list (halt) *)
+Definition valset_epoch_end (minself : Z) (nprev : nat) (ops : list voper) : option nat :=
+  let n := List.length (filter (eligible minself) ops) in
+  match nprev, n with
+  | S _, O => None
+  | _, _ => Some n
+  end.
+
+(* ------------------------------------------------------------------------------------------ *)
 (* 6. block-level composition                                                                  *)
 (* ------------------------------------------------------------------------------------------ *)
 Record state := mkSt {
@@ -365,6 +418,11 @@ Inductive path :=
 | PSlashUndel (native : bool) (amount : Z) (props : list Z) (actuals : list Z)
     (* one pending undelegation, the proportions of the slashes that reached it (as stored in the slash records),
        the ActualCompletedAmount observed after each slash; c_obs = delegation EndBlock at the maturity height *)
+| PValset (nprev eligible_now : nat)
+    (* dogfood epoch end: validators before, operators eligible now; c_later_ok = the real CometBFT
+       ValidatorSet.UpdateWithChangeSet accepted the update list returned by the real EndBlock *)
+| PPriceString (numeric : bool) (value : Z)
+    (* UpdateVotingPower of an AVS one of whose assets has this stored price string *)
 | PVotingPower (opshare amount : Z)                                (* UpdateVotingPower of the dogfood AVS *)
 | PDelegEnd (n failing : nat)                                      (* delegation EndBlock, one matured record made to fail *)
 | PAbci (blocks : nat).                                            (* malformed-tx stream / plain blocks *)
@@ -396,6 +454,11 @@ Definition check_case (c : case) : option nat :=
     | PSlashUndel native amount ps actuals =>
         zlist_eqb (slash_undel_all amount amount ps) actuals &&
         rclass_eqb (match complete_gen native (last_actual amount ps) with Panic => RPanic | _ => ROk end) (c_obs c)
+    | PValset nprev el =>
+        (* the model (no per-operator data needed: only whether anybody is eligible) predicts acceptance *)
+        Bool.eqb (c_later_ok c) (match nprev, el with S _, O => false | _, _ => true end) && rclass_eqb (c_obs c) ROk
+    | PPriceString numeric v =>
+        rclass_eqb (class_of (price_value (if numeric then Some v else None))) (c_obs c)
     | PVotingPower sh a => rclass_eqb (class_of (voting_power_gen sh a)) (c_obs c)
     | PDelegEnd n f => Nat.ltb f n && rclass_eqb (c_obs c) ROk    (* per-record errors are logged and skipped *)
     | PAbci _ => true
